@@ -15,26 +15,33 @@ structure Inv (st : St) : Prop where
   /-- an answer under way is what the peer sent to that request, with the request's stream id -/
   ans_sent : ∀ s c f, st.wire s = .answered c f → st.sent c = some f ∧ f.sid = s
   /-- a registered call reserved that id and is in flight (registered) or gave up without a response -/
-  reg_pc : ∀ s d, st.reg s = some d → st.owner s = some d ∧ st.sidOf d = s ∧ st.pc d ≠ .idle ∧
+  reg_pc : ∀ s d, st.reg s = some d → (st.closed = none → st.owner s = some d) ∧ st.sidOf d = s ∧ st.pc d ≠ .idle ∧
     (∀ s' r wr ret, st.pc d = .flight s' r wr ret → s' = s ∧ r = true) ∧ (∀ f, st.pc d ≠ .done (.resp f))
   /-- a call in flight -/
   flight_ok : ∀ c s r wr ret, st.pc c = .flight s r wr ret → st.owner s = some c ∧ st.sidOf c = s ∧
     (r = true → st.reg s = some c) ∧ (r = false → st.reg s = none ∧ wr = false) ∧ (wr = false → st.wire s = .none ∧ ret = false)
-  /-- an id nobody reserved has no handler and nothing on the wire -/
-  free_ok : ∀ s, st.owner s = none → st.reg s = none ∧ st.wire s = .none
+  /-- an id nobody reserved has no handler and nothing on the wire (while the connection is open: closeWithError owns
+      the map afterwards and no id is handed out any more) -/
+  free_ok : st.closed = none → ∀ s, st.owner s = none → st.reg s = none ∧ st.wire s = .none
   /-- what a call was handed as its response is the frame the peer sent for it, with its own stream id -/
   resp_ok : ∀ c f, st.pc c = .done (.resp f) → st.sent c = some f ∧ f.sid = st.sidOf c
   /-- the error of the connection that a call was handed carries no frame -/
   err_ok : ∀ c e, st.pc c = .done (.connErr e) → e = .plain
   /-- no answer was ever discarded for want of a handler -/
   not_lost : ∀ c, st.lost c = false
+  /-- addCall never finds another call registered under the id it was given -/
+  no_dup : ∀ c, st.pc c ≠ .done .dupErr
+  /-- a call that is about to free its id still holds it, is no longer registered under it (its registration was
+      removed BEFORE: by recv's look-up or by the early exit itself) and nothing is on the wire for it -/
+  rel_ok : ∀ c, st.rel c = .due → st.owner (st.sidOf c) = some c ∧ st.wire (st.sidOf c) = .none ∧
+    (st.closed = none → st.reg (st.sidOf c) = none) ∧ (∀ s r wr ret, st.pc c ≠ .flight s r wr ret) ∧ st.pc c ≠ .idle
 
 theorem inv_init (cap : Nat) : Inv (init cap) := by
   constructor <;> simp [init]
 
 macro "close_own" h:ident : tactic => `(tactic| (
-  obtain ⟨h1, h2, h2', h3, h4, h5, h6, h7, h8, h9⟩ := $h
-  constructor <;> simp only [upd, closeWith] <;> grind))
+  obtain ⟨h1, h2, h2', h3, h4, h5, h6, h7, h8, h9, h10, h11⟩ := $h
+  constructor <;> simp only [upd, closeWith, earlyExit] <;> grind))
 
 set_option maxHeartbeats 4000000 in
 theorem inv_step (st st' : St) (a : Act) (h : Inv st) (hs : step Cfg.code st a = some st') : Inv st' := by
@@ -50,7 +57,13 @@ theorem inv_step (st st' : St) (a : Act) (h : Inv st) (hs : step Cfg.code st a =
     · simp only [Bool.false_eq_true, ↓reduceIte] at hs
       split at hs
       · split at hs
-        · injection hs with hs; subst hs; close_own h
+        · split at hs
+          · injection hs with hs; subst hs; close_own h
+          · rename_i hne
+            exfalso
+            rename_i s wr ret hpc _ _
+            have := (h.flight_ok c s false wr ret hpc).2.2.2.1 rfl
+            exact hne this.1
         · injection hs with hs; subst hs; close_own h
       · simp at hs
     · simp at hs
@@ -127,6 +140,28 @@ theorem inv_step (st st' : St) (a : Act) (h : Inv st) (hs : step Cfg.code st a =
     split at hs
     · injection hs with hs; subst hs; close_own h
     · simp at hs
+  | buildFailed c =>
+    simp only [step, earlyExit, Cfg.code, and_true] at hs
+    split at hs
+    · injection hs with hs; subst hs
+      by_cases hc : st.closed = none <;> simp only [hc, if_true, if_false] <;> close_own h
+    · simp at hs
+  | writeCancelled c =>
+    simp only [step, earlyExit, Cfg.code, and_true] at hs
+    split at hs
+    · injection hs with hs; subst hs
+      by_cases hc : st.closed = none <;> simp only [hc, if_true, if_false] <;> close_own h
+    · simp at hs
+  | release c =>
+    simp only [step] at hs
+    split at hs
+    · injection hs with hs; subst hs; close_own h
+    · simp at hs
+  | relDone c =>
+    simp only [step, Cfg.code] at hs
+    split at hs
+    · injection hs with hs; subst hs; close_own h
+    · simp at hs
 
 theorem inv_run : ∀ (as : List Act) (s s' : St), Inv s → run Cfg.code s as = some s' → Inv s'
   | [], s, s', h, hr => by simp [run] at hr; subst hr; exact h
@@ -136,5 +171,29 @@ theorem inv_run : ∀ (as : List Act) (s s' : St), Inv s → run Cfg.code s as =
     · rename_i s1 hs1
       exact inv_run as s1 s' (inv_step s s1 a h hs1) hr
     · simp at hr
+
+/-- an interleaved history of several connections is, for each connection, a history of that connection alone -/
+theorem mrun_proj (cfg : Cfg) : ∀ (as : List (Nat × Act)) (m m' : Nat → St), mrun cfg m as = some m' →
+    ∀ k, run cfg (m k) (proj k as) = some (m' k)
+  | [], m, m', h, k => by simp [mrun] at h; subst h; simp [proj, run]
+  | (j, a) :: as, m, m', h, k => by
+    simp only [mrun, mstep] at h
+    split at h
+    · rename_i m1 hm1
+      split at hm1
+      · rename_i s1 hs1
+        injection hm1 with hm1
+        subst hm1
+        have ih := mrun_proj cfg as _ m' h k
+        simp only [proj]
+        by_cases hjk : j = k
+        · subst hjk
+          simp only [if_true, run, hs1]
+          simpa [upd] using ih
+        · simp only [hjk, if_false]
+          have : upd m j s1 k = m k := by simp [upd]; intro h; exact absurd h.symm hjk
+          rw [this] at ih; exact ih
+      · simp at hm1
+    · simp at h
 
 end MuxOwn
